@@ -48,15 +48,21 @@ def view(msg):
     return (type(msg).__name__, msg.as_bytes, bool(msg.is_valid))
 
 
-def run_protocol(kind, spec, chunks):
+def run_protocol(kind, spec, chunks, gap_pattern="none"):
     _ensure_loop()
+    from vlib import fakeclock
+
     q = asyncio.Queue()
     cls = meter_connection.SmartMeterMessagePayloadProtocol if kind == "payload" else meter_connection.SmartMeterMessageProtocol
-    proto = guarded(cls, q, make_readers(spec), what=cls.__name__)
+    readers = make_readers(spec)
+    proto = guarded(cls, q, readers if len(chunks) % 2 else tuple(readers), what=cls.__name__)  # candidates given as a list or a tuple
     per_chunk = []
-    for ch in chunks:
-        guarded(proto.data_received, ch, what=f"{cls.__name__}.data_received")
-        per_chunk.append(drain(q))
+    gaps = fakeclock.gaps_for(len(chunks), gap_pattern, len(chunks))
+    with fakeclock.FakeClock() as clk:  # virtual seconds pass between the calls: forwarding must not depend on timing
+        for ch, gap in zip(chunks, gaps):
+            clk.advance(gap)
+            guarded(proto.data_received, ch, what=f"{cls.__name__}.data_received")
+            per_chunk.append(drain(q))
     return per_chunk
 
 
@@ -190,11 +196,12 @@ def clean_oracle(case) -> Info:
     if (kind_of_stream == "hdlc" and order == "P") or (kind_of_stream == "p1" and order == "H"):
         spec = (h, ("P",))
     chunks = GH.split(stream, cuts) if kind_of_stream == "hdlc" else c05.chunks_of(stream, cuts, c05.build_stream(payload_case)[1])
-    got_p = [x for items in run_protocol("payload", spec, chunks) for x in items]
+    gp = ("none", "mixed", "long")[len(stream) % 3]
+    got_p = [x for items in run_protocol("payload", spec, chunks, gp) for x in items]
     if got_p != sent_payloads:
         i = next((k for k in range(min(len(got_p), len(sent_payloads))) if got_p[k] != sent_payloads[k]), min(len(got_p), len(sent_payloads)))
         fail(f"clean {kind_of_stream} stream, candidates {spec}: {len(sent_payloads)} non-empty payloads sent, {len(got_p)} enqueued; first difference at #{i}", sig=f"clean-{kind_of_stream}-payloads")
-    got_m = [view(x) for items in run_protocol("message", spec, chunks) for x in items]
+    got_m = [view(x) for items in run_protocol("message", spec, chunks, gp) for x in items]
     if got_m != sent_views:
         fail(f"clean {kind_of_stream} stream, candidates {spec}: message protocol enqueued {len(got_m)} messages, {len(sent_views)} sent (or content differs)", sig=f"clean-{kind_of_stream}-messages")
     return Info(nontrivial=len(spec) >= 2 and len(chunks) > 1, classes=(f"clean:{kind_of_stream}", f"order:{''.join('P' if s[0] == 'P' else 'H' for s in spec)}"))
@@ -251,6 +258,61 @@ def reuse_oracle(case) -> Info:
 reuse_st = st.tuples(st.sampled_from(["hdlc", "p1"]), st.integers(0, 10**6), st.integers(1, 6), st.integers(1, 6), st.sampled_from(["payload", "message"]))
 
 
+# ---- protocols as the library's own connection factory builds them (default candidate readers), one connection after another ------
+
+
+class _FakeLoop:
+    """Just enough of an event loop for han.tcp_connection_factory: create_connection() builds the protocol and hands it back."""
+
+    def __init__(self):
+        self.protocols = []
+
+    async def create_connection(self, protocol_factory, *args, **kwargs):
+        proto = protocol_factory()
+        self.protocols.append(proto)
+        return (None, proto)
+
+
+def factory_oracle(case) -> Info:
+    kind_of_stream, seed, n_conn, kind, cut_mid = case
+    _ensure_loop()
+    from han import tcp_connection_factory as tcp
+
+    create = tcp.create_tcp_message_payload_connection if kind == "payload" else tcp.create_tcp_message_connection
+    floop = _FakeLoop()
+    for conn in range(n_conn):
+        q = asyncio.Queue()
+        coro = create(q, floop, None, "fake-host", 1234)
+        try:
+            coro.send(None)
+        except StopIteration as stop:
+            _transport, proto = stop.value
+        else:
+            raise AssertionError("factory did not complete synchronously with the fake loop")
+        if kind_of_stream == "hdlc":
+            # the factory's default HDLC reader has abort detection on
+            msgs = resync.clean_frames(4, False, True, seed + conn, min_info=2, max_info=8)
+            stream, _ = resync.frames_tail(msgs, False, seed)
+            want = [ref_fields(f)["payload"] for f in msgs]
+        else:
+            msgs = resync.clean_readouts(4, seed + conn)
+            stream = b"".join(msgs)
+            want = [m[m.index(b"\n") + 1 : GP.end_line_pos(m)] for m in msgs]
+        last = conn == n_conn - 1
+        feed = stream if last or not cut_mid else stream[: len(stream) - 1 - seed % 9]  # earlier connections may die mid-message
+        for ch in GH.split(feed, ("fixed", 40, 0)):
+            guarded(proto.data_received, ch, what="data_received")
+        items = drain(q)
+        got = items if kind == "payload" else [m.payload for m in items]
+        if last or not cut_mid:
+            if got != [w for w in want if w]:
+                fail(f"connection #{conn + 1} of {n_conn} created by han.tcp_connection_factory with default readers: {len(want)} clean {kind_of_stream} messages sent, {len(got)} forwarded", sig="factory-connection")
+    return Info(nontrivial=n_conn >= 2, classes=(f"factory:{kind_of_stream}:{kind}", f"connections:{n_conn}"))
+
+
+factory_st = st.tuples(st.sampled_from(["hdlc", "p1"]), st.integers(0, 10**6), st.integers(1, 3), st.sampled_from(["payload", "message"]), st.booleans())
+
+
 # ---- backlog: many messages enqueued while nothing consumes the queue -------------------------------------------------------------
 
 
@@ -299,10 +361,12 @@ def build() -> Check:
             "first valid one in the selection chunk. clean: C02-domain HDLC streams and C05-domain P1 streams with candidate orders "
             "[HDLC,P1] and [P1,HDLC] (and the single matching reader): the payload queue equals every sent message's non-empty payload, "
             "the message queue every sent message. reused-list: two protocol instances built one after the other from the caller's same list object, "
-            "each fed a clean stream - both must forward everything and the caller's list must be left as it was. backlog: 1..1500 small clean messages (boundaries 255/256/257/1025 forced) delivered in one or "
+            "each fed a clean stream - both must forward everything and the caller's list must be left as it was. factory: protocols obtained from han.tcp_connection_factory (default candidate readers) through a fake loop, 1..3 connections one after "
+            "another (earlier ones may end mid-message), each must forward its clean stream completely. backlog: 1..1500 small clean messages (boundaries 255/256/257/1025 forced) delivered in one or "
             "several calls while nothing consumes the queue - afterwards the queue must hold every one of them, in order."
         ),
         assumptions=[
+            "Candidate readers are passed as a list or as a tuple (the parameter is a Sequence); in the clean clause virtual time gaps of 0 s .. 1 day pass between data_received() calls.",
             "If several candidates become valid in the same chunk, either may be the selected one (the property does not fix the tie-break).",
             "Clean clause: an HDLC stream on which a stand-alone P1 reader finds a valid readout is skipped as inherently ambiguous (class ambiguous-skipped); P1 text never contains 0x7E.",
         ],
@@ -310,6 +374,7 @@ def build() -> Check:
             HypClause("general", general_case_st, general_oracle, quick=5000, thorough=150000),
             HypClause("clean", clean_case_st, clean_oracle, quick=3000, thorough=60000),
             HypClause("reused-list", reuse_st, reuse_oracle, quick=400, thorough=8000, doc="two protocols built one after the other from the caller's same candidate list"),
+            HypClause("factory", factory_st, factory_oracle, quick=300, thorough=6000, doc="protocols built by han.tcp_connection_factory with its default readers, 1..3 connections in a row"),
             HypClause("backlog", backlog_st, backlog_oracle, quick=150, thorough=3000, doc="1..1500 small messages enqueued before the queue is read"),
         ],
     )
